@@ -3,18 +3,42 @@
 //
 //   stream <seed|default> <n>             o0 o1 o2 o3 o(n-1) fold           engine object
 //   vstream <seed32> <n>                  same, through vita::random::seed + vita::random::engine
+//   geq <A> <B>                           equal|different same4|diff4   operator== and the next four outputs
 //   save <seed> <k>                       text <state text, blanks as _>
 //   load <seedB> <j> <hex text> <n>       ok|fail|oob <state text> <o0 … o(n-1)>
 //   roundtrip <seedA> <k> <seedB> <j> <n> same | diff <pos> | fail | oob [diff <pos>]
 //   sup <seed32> <bound> <count>          v0 v1 v2 v3 fold [range!] [nondet]   random::sup<size_t>
 //   between <seed32> <a> <b> <count>      v0 v1 v2 v3 fold [range!] [nondet]   random::between<int>
 //   mixed <seed32> <count>                fold [nondet]    every entry point of vita::random, twice
+//   supu <E> <bound> <count>              …                random::sup<unsigned>
+//   betu64 <E> <a> <b> <count>            …                random::between<std::uint64_t>
+//   inr <E> <a> <b> <count>               …                random::in(range_t<int>)
+//   elem <E> <size> <count>               0-fold | v0 v1 v2 v3 fold     random::element (both overloads agree | the index)
+//   ring <E> <base> <width> <n> <count>   …                random::ring
+//   betd <E> <bitsA> <bitsB> <count>      b0 b1 b2 b3 fold lo=<#below min> eq=<#equal sup> hi=<#above sup> [nondet]
+//                                                          random::between<double>, random::in(range_t<double>)
+//   bool <E> <bitsP> <count>              fold ones=<n> [nondet]        random::boolean(p)
+//   <E> = a 32-bit seed (vita::random::seed) or st:w0:w1:w2:w3 (state written into vita::random::engine)
+//   cfgrt <A> <k> <B> <j> <n> <cfg>       same|diff|diff-stream|fail|oob  b0 b1 b2 b3  <hex of the text written>
+//                                         engine A (after k draws) is written to a std::stringstream whose
+//                                         formatting state / locale is <cfg> and read back from the SAME stream
+//                                         into engine B (after j draws); the restored words are compared with A's
+//                                         (object representation, independent of operator<< and operator==)
+//   cfgload <B> <j> <cfg> <hex text> <n>  ok|fail|oob  b0 b1 b2 b3  <o0 … o(n-1)>   operator>> under <cfg>
+//   an engine <A>/<B>/<seed> is `default`, a seed, or `st:w0:w1:w2:w3` (the four state words, any value)
+//   <cfg> = base:showbase:uppercase:showpos:width:fill:adjust:skipws:sep:grouping
+//           base 10|16|8|0 (no basefield bit), fill/sep character codes, adjust 0 left 1 right 2 internal
+//           3 none, sep `-` = classic locale, otherwise a std::numpunct<char> facet with that thousands
+//           separator and `grouping` (hex bytes, `-` = empty)
 #define VERIF_UBSAN_HOOK
 #include "kernel/vita.h"
 #include "common/verif.h"
 
+#include <array>
+#include <locale>
 #include <new>
 #include <sstream>
+#include <type_traits>
 
 using engine = vigna::xoshiro256ss;
 
@@ -25,12 +49,114 @@ namespace
 // we own, so the harness survives to report what UBSan saw.
 alignas(16) unsigned char arena[2][1024];
 
+static_assert(sizeof(engine) == 4 * sizeof(std::uint64_t) && std::is_trivially_copyable_v<engine>,
+              "xoshiro256ss is no longer exactly its four state words: adapt words()/make()");
+
+// the four state words, read from the object representation (no operator of the engine involved)
+std::array<std::uint64_t, 4> words(const engine &e)
+{
+  std::array<std::uint64_t, 4> w;
+  std::memcpy(w.data(), &e, sizeof(w));
+  return w;
+}
+
 engine *make(int slot, const std::string &seed)
 {
   std::memset(arena[slot], 0, sizeof(arena[slot]));
   if (seed == "default")
     return new (arena[slot]) engine();
+  if (seed.rfind("st:", 0) == 0)
+  {
+    auto *e(new (arena[slot]) engine());
+    std::array<std::uint64_t, 4> w;
+    std::size_t pos(3);
+    for (auto &x : w)
+    {
+      std::size_t used(0);
+      x = std::stoull(seed.substr(pos), &used);
+      pos += used + 1;
+    }
+    std::memcpy(static_cast<void *>(e), w.data(), sizeof(w));
+    return e;
+  }
   return new (arena[slot]) engine(std::stoull(seed));
+}
+
+// ---- stream configurations ------------------------------------------------------------------------
+struct punct : std::numpunct<char>
+{
+  punct(char s, std::string g) : sep_(s), grp_(std::move(g)) {}
+  char do_thousands_sep() const override { return sep_; }
+  std::string do_grouping() const override { return grp_; }
+  char sep_;
+  std::string grp_;
+};
+
+struct cfg
+{
+  unsigned base = 10, width = 0, adjust = 0;
+  bool showbase = false, upper = false, showpos = false, skipws = true, facet = false;
+  char fill = ' ', sep = ',';
+  std::string grouping;
+};
+
+cfg parse_cfg(const std::string &t)
+{
+  std::vector<std::string> f;
+  std::size_t p(0);
+  while (true)
+  {
+    const auto q(t.find(':', p));
+    f.push_back(t.substr(p, q == std::string::npos ? q : q - p));
+    if (q == std::string::npos) break;
+    p = q + 1;
+  }
+  if (f.size() != 10) throw std::runtime_error("cfg");
+  cfg c;
+  c.base = std::stoul(f[0]);
+  c.showbase = f[1] == "1";
+  c.upper = f[2] == "1";
+  c.showpos = f[3] == "1";
+  c.width = std::stoul(f[4]);
+  c.fill = static_cast<char>(std::stoul(f[5]));
+  c.adjust = std::stoul(f[6]);
+  c.skipws = f[7] == "1";
+  c.facet = f[8] != "-";
+  if (c.facet)
+  {
+    c.sep = static_cast<char>(std::stoul(f[8]));
+    c.grouping = verif::unhex(f[9]);
+  }
+  return c;
+}
+
+void configure(std::ios &s, const cfg &c)
+{
+  if (c.facet)
+    s.imbue(std::locale(std::locale::classic(), new punct(c.sep, c.grouping)));
+  auto f(s.flags());
+  f &= ~(std::ios::basefield | std::ios::adjustfield | std::ios::showbase | std::ios::uppercase
+         | std::ios::showpos | std::ios::skipws);
+  if (c.base == 10) f |= std::ios::dec;
+  if (c.base == 16) f |= std::ios::hex;
+  if (c.base == 8) f |= std::ios::oct;
+  if (c.adjust == 0) f |= std::ios::left;
+  if (c.adjust == 1) f |= std::ios::right;
+  if (c.adjust == 2) f |= std::ios::internal;
+  if (c.showbase) f |= std::ios::showbase;
+  if (c.upper) f |= std::ios::uppercase;
+  if (c.showpos) f |= std::ios::showpos;
+  if (c.skipws) f |= std::ios::skipws;
+  s.flags(f);
+  s.width(c.width);
+  s.fill(c.fill);
+}
+
+std::string words_text(const engine &e)
+{
+  std::string out;
+  for (auto w : words(e)) out += " " + std::to_string(w);
+  return out;
 }
 
 std::uint64_t fold(std::uint64_t h, std::uint64_t o) { return h * 0x100000001B3ull + o; }
@@ -58,14 +184,35 @@ std::string stream_answer(engine &e, unsigned n)
   return out + std::to_string(last) + " " + std::to_string(h);
 }
 
-template<class F, class P> std::string draws(unsigned seed, unsigned count, F f, P in_range)
+// puts vita::random::engine into the state `spec`: a 32-bit seed (through vita::random::seed) or
+// `st:w0:w1:w2:w3` (the object representation is overwritten: rare events can be constructed)
+void set_engine(const std::string &spec)
+{
+  static_assert(std::is_same_v<vita::random::engine_t, engine>, "vita::random::engine is not xoshiro256ss");
+  if (spec.rfind("st:", 0) == 0)
+  {
+    std::array<std::uint64_t, 4> w;
+    std::size_t pos(3);
+    for (auto &x : w)
+    {
+      std::size_t used(0);
+      x = std::stoull(spec.substr(pos), &used);
+      pos += used + 1;
+    }
+    std::memcpy(static_cast<void *>(&vita::random::engine), w.data(), sizeof(w));
+  }
+  else
+    vita::random::seed(std::stoul(spec));
+}
+
+template<class F, class P> std::string draws(const std::string &seed, unsigned count, F f, P in_range)
 {
   std::string out;
   std::uint64_t h[2] = {0, 0};
   bool range_ok(true);
   for (int pass(0); pass < 2; ++pass)      // in-process repetition: same seed, same draws
   {
-    vita::random::seed(seed);
+    set_engine(seed);
     for (unsigned i(0); i < count; ++i)
     {
       const auto v(f());
@@ -86,6 +233,7 @@ std::string mixed(unsigned seed, unsigned count)
   const std::vector<int> box = {3, 1, 4, 1, 5, 9, 2, 6};
   for (int pass(0); pass < 2; ++pass)
   {
+    vita::random::randomize();           // whatever it did, seed() must undo it
     vita::random::seed(seed);
     for (unsigned i(0); i < count; ++i)
     {
@@ -119,6 +267,16 @@ std::string answer(const std::vector<std::string> &t)
   {
     vita::random::seed(std::stoul(t[1]));
     return stream_answer(vita::random::engine, std::stoul(t[2]));
+  }
+  if (t.size() == 3 && t[0] == "geq")
+  {
+    auto *a(make(0, t[1])), *b(make(1, t[2]));
+    const bool eq(*a == *b), ne(*a != *b);
+    bool same4(true);
+    for (int i(0); i < 4; ++i)
+      if ((*a)() != (*b)()) same4 = false;
+    return std::string(eq ? "equal" : "different") + (eq == ne ? " !=-inconsistent" : "")
+           + (same4 ? " same4" : " diff4");
   }
   if (t.size() == 3 && t[0] == "save")
   {
@@ -165,19 +323,142 @@ std::string answer(const std::vector<std::string> &t)
   if (t.size() == 4 && t[0] == "sup")
   {
     const std::size_t bound(std::stoull(t[2]));
-    return draws(std::stoul(t[1]), std::stoul(t[3]),
+    return draws(t[1], std::stoul(t[3]),
                  [bound] { return vita::random::sup<std::size_t>(bound); },
                  [bound](std::size_t v) { return v < bound; });
   }
   if (t.size() == 5 && t[0] == "between")
   {
     const int a(std::stoi(t[2])), b(std::stoi(t[3]));
-    return draws(std::stoul(t[1]), std::stoul(t[4]),
+    return draws(t[1], std::stoul(t[4]),
                  [a, b] { return static_cast<long long>(vita::random::between<int>(a, b)); },
                  [a, b](long long v) { return a <= v && v < b; });
   }
   if (t.size() == 3 && t[0] == "mixed")
     return mixed(std::stoul(t[1]), std::stoul(t[2]));
+  if (t.size() == 4 && t[0] == "supu")
+  {
+    const unsigned bound(std::stoul(t[2]));
+    return draws(t[1], std::stoul(t[3]), [bound] { return vita::random::sup<unsigned>(bound); },
+                 [bound](unsigned v) { return v < bound; });
+  }
+  if (t.size() == 5 && t[0] == "betu64")
+  {
+    const std::uint64_t a(std::stoull(t[2])), b(std::stoull(t[3]));
+    return draws(t[1], std::stoul(t[4]), [a, b] { return vita::random::between<std::uint64_t>(a, b); },
+                 [a, b](std::uint64_t v) { return a <= v && v < b; });
+  }
+  if (t.size() == 5 && t[0] == "inr")
+  {
+    const int a(std::stoi(t[2])), b(std::stoi(t[3]));
+    return draws(t[1], std::stoul(t[4]),
+                 [a, b] { return static_cast<long long>(vita::random::in(vita::range_t<int>{a, b})); },
+                 [a, b](long long v) { return a <= v && v < b; });
+  }
+  if (t.size() == 4 && t[0] == "elem")
+  {
+    std::vector<std::uint64_t> box(std::stoull(t[2]));
+    for (std::size_t i(0); i < box.size(); ++i) box[i] = i;
+    const auto &cbox(box);
+    return draws(t[1], std::stoul(t[3]),
+                 [&box, &cbox] { return vita::random::element(box) == vita::random::element(cbox) ? 0ull : 1ull; },
+                 [](std::uint64_t) { return true; })
+           + " | " +
+           draws(t[1], std::stoul(t[3]), [&cbox] { return vita::random::element(cbox); },
+                 [&cbox](std::uint64_t v) { return v < cbox.size(); });
+  }
+  if (t.size() == 6 && t[0] == "ring")
+  {
+    const unsigned base(std::stoul(t[2])), width(std::stoul(t[3])), n(std::stoul(t[4]));
+    return draws(t[1], std::stoul(t[5]), [=] { return vita::random::ring(base, width, n); },
+                 [n](unsigned v) { return v < n; });
+  }
+  if (t.size() == 5 && t[0] == "betd")      // random::between<double> / random::in(range_t<double>), bit patterns
+  {
+    const double a(verif::from_bits(std::stoull(t[2]))), b(verif::from_bits(std::stoull(t[3])));
+    const unsigned count(std::stoul(t[4]));
+    std::string out;
+    std::uint64_t h[3] = {0, 0, 0};
+    unsigned lo(0), eq(0), hi(0);
+    for (int pass(0); pass < 3; ++pass)
+    {
+      set_engine(t[1]);
+      for (unsigned i(0); i < count; ++i)
+      {
+        const double v(pass == 2 ? vita::random::in(vita::range_t<double>{a, b}) : vita::random::between<double>(a, b));
+        h[pass] = fold(h[pass], verif::bits(v));
+        if (pass == 0)
+        {
+          if (i < 4) out += std::to_string(verif::bits(v)) + " ";
+          if (v < a) ++lo;
+          if (v == b) ++eq;
+          if (v > b) ++hi;
+        }
+      }
+    }
+    out += std::to_string(h[0]) + " lo=" + std::to_string(lo) + " eq=" + std::to_string(eq) + " hi=" + std::to_string(hi);
+    if (h[0] != h[1] || h[0] != h[2]) out += " nondet";
+    return out;
+  }
+  if (t.size() == 4 && t[0] == "bool")      // random::boolean(p)
+  {
+    const double p(verif::from_bits(std::stoull(t[2])));
+    const unsigned count(std::stoul(t[3]));
+    std::uint64_t h[2] = {0, 0};
+    unsigned ones(0);
+    for (int pass(0); pass < 2; ++pass)
+    {
+      set_engine(t[1]);
+      for (unsigned i(0); i < count; ++i)
+      {
+        const bool v(vita::random::boolean(p));
+        h[pass] = fold(h[pass], v);
+        if (pass == 0 && v) ++ones;
+      }
+    }
+    return std::to_string(h[0]) + " ones=" + std::to_string(ones) + (h[0] != h[1] ? " nondet" : "");
+  }
+  if (t.size() == 7 && t[0] == "cfgrt")
+  {
+    auto *a(make(0, t[1]));
+    for (unsigned k(std::stoul(t[2])); k; --k) (*a)();
+    auto *b(make(1, t[3]));
+    for (unsigned j(std::stoul(t[4])); j; --j) (*b)();
+    const auto c(parse_cfg(t[6]));
+
+    std::stringstream ss;
+    configure(ss, c);
+    const auto before(verif::ubsan_reports);
+    ss << *a;
+    const std::string text(ss.str());
+    ss >> *b;
+    const bool oob(verif::ubsan_reports != before);
+    const bool failed(ss.fail());
+    std::string verdict(oob ? "oob" : failed ? "fail" : words(*a) == words(*b) ? "same" : "diff");
+    const std::string restored(words_text(*b));
+    if (verdict == "same")
+    {
+      if (!(*a == *b)) verdict = "diff-stream";
+      for (unsigned n(std::stoul(t[5])); n; --n)
+        if ((*a)() != (*b)()) verdict = "diff-stream";
+    }
+    return verdict + restored + " " + verif::hex(text);
+  }
+  if (t.size() == 6 && t[0] == "cfgload")
+  {
+    auto *b(make(1, t[1]));
+    for (unsigned j(std::stoul(t[2])); j; --j) (*b)();
+    const auto c(parse_cfg(t[3]));
+    std::istringstream is(verif::unhex(t[4]));
+    configure(is, c);
+    const auto before(verif::ubsan_reports);
+    is >> *b;
+    const bool oob(verif::ubsan_reports != before);
+    std::string out(oob ? "oob" : is.fail() ? "fail" : "ok");
+    out += words_text(*b);
+    for (unsigned n(std::stoul(t[5])); n; --n) out += " " + std::to_string((*b)());
+    return out;
+  }
   return "bad-op";
 }
 
